@@ -187,7 +187,8 @@ class Context:
                 return KnownValue(getattr(root_value.val, node.attr))
             except AttributeError:
                 self.show_error(
-                    f"{root_value.val!r} has no attribute {node.attr!r}", node=node
+                    f"{safe_repr(root_value.val)} has no attribute {node.attr!r}",
+                    node=node,
                 )
                 return AnyValue(AnySource.error)
         elif not isinstance(root_value, AnyValue):
@@ -909,7 +910,7 @@ def _type_from_subscripted_value(
         origin = get_origin(root)
         if isinstance(origin, type):
             return GenericValue(origin, [_type_from_value(elt, ctx) for elt in members])
-        ctx.show_error(f"Unrecognized subscripted annotation: {root}")
+        ctx.show_error(f"Unrecognized subscripted annotation: {safe_repr(root)}")
         return AnyValue(AnySource.error)
 
 
@@ -1092,7 +1093,7 @@ class _Visitor(ast.NodeVisitor):
         func = self.visit(node.func)
         if not isinstance(func, KnownValue):
             return None
-        if func.val == NewType:
+        if func.val is NewType:
             arg_values = [self.visit(arg) for arg in node.args]
             kwarg_values = [(kw.arg, self.visit(kw.value)) for kw in node.keywords]
             args = []
